@@ -94,6 +94,9 @@ def curated():
     out.append(dict(k="tuple", ts=[G("RefMut", A(2, L(6))), L(1), G("RefMut", L(9))]))
     out.append(dict(k="tuple", ts=[G("RefRefCell", A(2, L(3))), G("RefMutex", L(6)), G("RefRwLock", dict(k="tuple", ts=[L(1), L(9)])), G("RefRefCell", L(1))]))
     out.append(dict(k="tuple", ts=[G("Ref", L(6)), L(2), G("Ref", A(3, L(1)))]))
+    # 20. deny on enum variants with no accessor above them: the absent-variant check precedes the variant's deny
+    out.append(ST("C20", [F("e", EN("C20e", [V("A", L(6)), V("B", L(1), deny={"OSer": 3, "ORef": 4}),
+                                              V("C", ST("C20c", [F("x", L(2))]), deny={"ODe": 5, "OMut": 6})])), F("z", L(9))]))
     # 13. 63 nested one-element arrays (one bit per level): max_bits is exactly the capacity of a Packed word
     t63 = L(1)
     for _ in range(63):
@@ -101,7 +104,7 @@ def curated():
     out.append(t63)
     res = []
     for t in out:
-        res.append((t, [S.value(rng, t) for _ in range(3 if S.has_gate(t, tuple(S.WEAK) + S.REF_NOANY) else 2)]))
+        res.append((t, [S.value(rng, t) for _ in range(3 if (S.has_gate(t, tuple(S.WEAK) + S.REF_NOANY) or t.get("name") == "C20") else 2)]))
     return res
 
 
